@@ -1,13 +1,34 @@
 """C02 handover: theorems in props/C02.v; adoption table + random phases, monitor on every apply."""
 import json
 import phasecheck as pc
-import setcheck, vlib
+import setcheck, vlib, dlglib as dl, C15 as dlg
 
 CONTROLLER_ID = "C02 (Cluster)ObjectSet controller: adoption from a higher revision, revision lowered, apply over an unread object, or not exactly one controller"
+HOSTED_ID = ("C02 ObjectSetPhase controller as wired by the managers (same-cluster / hosted-cluster): apply over an object the pass "
+             "did not read, adoption from a higher revision, revision lowered (also: the ObjectSet's own revision recomputed lower "
+             "between passes), or not exactly one controller")
+
+
+def hosted(seed, tier):
+    """Passes of the real ObjectSetPhase controllers, built through their constructors with the managers' argument
+    roles, two recording servers in hosted-cluster mode: members missing from the dynamic cache and controlled by a
+    newer revision, teardown reads, and ObjectSets with phase objects and members in arbitrary states."""
+    r = vlib.rng(seed, "C02h")
+    scs = [dl.scenario_hosted(r, cluster, teardown) for cluster in (True, False) for teardown in (False, True)]
+    # a previous revision vanishes between two passes of the next one: its revision must not be recomputed lower
+    scs += [dl.scenario_prev_deleted(r), dl.scenario_prev_deleted(r, strategy="annot")]
+    for i in range(24 if tier == "quick" else 400):
+        scs.append(dl.scenario_states(r, strategy="annot" if i % 2 == 0 else "native"))
+    return [dl.place(sc) for sc in scs]
 
 
 def check(run, tier, seed, replay=None):
     rsc = json.load(open(replay))["replay"]["scenario"] if replay else None
+    if rsc is not None and "stages" in rsc:
+        vlib.std_proof_stage(run, "C02")
+        n, _, _, _ = dlg.delegation_stage(run, "C02", [rsc], id_mon=HOSTED_ID, id_twin=HOSTED_ID, id_own=HOSTED_ID)
+        run.cov["evaluations"] = n
+        return
     if rsc is not None and "target" in rsc:
         vlib.std_proof_stage(run, "C02")
         setcheck.controller_stage(run, "C02", tier, seed, "judge02s", CONTROLLER_ID, replay_sc=rsc)
@@ -19,3 +40,5 @@ def check(run, tier, seed, replay=None):
                    "demoted / stale uid / foreign), both strategies", faults=True)
     if not replay:
         setcheck.controller_stage(run, "C02", tier, seed, "judge02s", CONTROLLER_ID)
+        n, _, _, _ = dlg.delegation_stage(run, "C02", hosted(seed, tier), id_mon=HOSTED_ID, id_twin=HOSTED_ID, id_own=HOSTED_ID)
+        run.cov["evaluations"] += n
